@@ -104,6 +104,48 @@ pub struct RunSpec {
     pub est_steps: u64,
     pub want_trace: bool,
     pub faults_enabled: Vec<&'static str>,
+    /// fault kind F8: per logical client, (call_no, monotonic jump ns, wall-clock jump ns) applied at the boundary
+    /// before that call; the wall clock may jump backwards, the monotonic one never does
+    pub clock_jumps: Vec<Vec<(u32, i64, i64)>>,
+}
+
+pub const VCLOCK_MONO_BASE: i64 = 1_000_000 * 1_000_000_000;
+pub const VCLOCK_REAL_BASE: i64 = 1_790_000_000 * 1_000_000_000;
+
+/// The virtual clock, for a clock read issued by a caller thread inside a library call. None = use the real clock.
+pub fn virtual_clock(real: bool) -> Option<i64> {
+    T.try_with(|c| {
+        if !c.in_call.get() || c.in_hook.get() {
+            return None;
+        }
+        match c.mode.get() {
+            tick::MODE_ISO => {
+                let n = c.iso_clock_reads.get() + 1;
+                c.iso_clock_reads.set(n);
+                Some(if real { VCLOCK_REAL_BASE } else { VCLOCK_MONO_BASE } + n as i64)
+            }
+            tick::MODE_SIM => {
+                let sh = shared()?;
+                c.in_hook.set(true);
+                let v = {
+                    let mut st = sh.m.lock().unwrap();
+                    st.clock_reads += 1;
+                    st.vmono += 1;
+                    st.vreal += 1;
+                    if real {
+                        VCLOCK_REAL_BASE + st.vreal
+                    } else {
+                        VCLOCK_MONO_BASE + st.vmono
+                    }
+                };
+                c.in_hook.set(false);
+                Some(v)
+            }
+            _ => None,
+        }
+    })
+    .ok()
+    .flatten()
 }
 
 #[derive(Clone, Copy, PartialEq)]
@@ -144,7 +186,10 @@ struct St {
     shared_hits: u64,
     switches: u64,
     futex_waits: u64,
-    f: [u64; 8],
+    vmono: i64,
+    vreal: i64,
+    clock_reads: u64,
+    f: [u64; 9],
     preempt_site: [u64; NSITES],
     pairs: [[u64; NSITES]; NSITES],
     work_differs: u64,
@@ -646,7 +691,8 @@ impl Shared {
             "sh": format!("{:016x}", st.sched.finish()),
             "calls": st.calls, "ticks": st.ticks, "bt": st.block_ticks, "shh": st.shared_hits, "fw": st.futex_waits,
             "steps": st.step, "sw": st.switches,
-            "f": st.f[1..8].to_vec(),
+            "f": st.f[1..9].to_vec(),
+            "cr": st.clock_reads,
             "ps": st.preempt_site.to_vec(),
             "pairs": pairs,
             "wd": st.work_differs,
@@ -695,6 +741,17 @@ fn client_main(sh: &'static Shared, me: usize, start_call: usize) {
         let mut k = start_call;
         while k < calls.len() {
             tick::begin_call(c, k as u32);
+            if let Some(js) = sh.spec.clock_jumps.get(me) {
+                for (kk, dm, dr) in js.iter() {
+                    if *kk as usize == k {
+                        let mut st = sh.m.lock().unwrap();
+                        st.vmono += (*dm).max(0);
+                        st.vreal += *dr;
+                        st.f[8] += 1;
+                        st.log.u64(0xC10C_0000 | me as u64);
+                    }
+                }
+            }
             sh.decision(me, k as u32, 0, Kind::Boundary, c);
             let entry = calls[k];
             let e = &sh.pool.entries[entry as usize];
@@ -783,7 +840,10 @@ pub fn run_child(pool: &Pool, spec: &RunSpec) -> ! {
         shared_hits: 0,
         switches: 0,
         futex_waits: 0,
-        f: [0; 8],
+        vmono: 0,
+        vreal: 0,
+        clock_reads: 0,
+        f: [0; 9],
         preempt_site: [0; NSITES],
         pairs: [[0; NSITES]; NSITES],
         work_differs: 0,
